@@ -183,9 +183,19 @@ Definition assign_member (r : setter_row) (inp : minput) : res :=
   end.
 
 (* orientation = ... / orientation given to the constructor: check_format_input_orientation(inp, init_format=True) *)
+(* in _init_position_orientation the shorter path is edge-padded to the longer one: an orientation path of length 0
+   next to the (>= 1) position path makes np.pad(oriQ, .., "edge") raise ValueError; the setter has no such step *)
 Definition assign_orient (r : setter_row) (inp : oinput) : oout :=
-  match s_val r with VOrientation => check_format_input_orientation inp | _ => OCrashed end.
-Definition odoc_accepts (inp : oinput) : bool := match inp with ONotRotation => false | _ => true end.
+  match s_val r with
+  | VOrientation =>
+      match check_format_input_orientation inp with
+      | OStored n => if String.eqb (s_attr r) "orientation@init" && (n =? 0) then OCrashed else OStored n
+      | x => x end
+  | _ => OCrashed end.
+(* documented: None, or a scipy Rotation "with length 1 or m": a single rotation or a stack of at least one *)
+Definition odoc_accepts (inp : oinput) : bool :=
+  match inp with ONotRotation => false | ONone => true | ORot single n => single || (1 <=? n) end.
+Definition wf_oinput (inp : oinput) : Prop := match inp with ORot _ n => 0 <= n | _ => True end.
 
 (* field_func = ... on an object of class cls: validate_field_func behind `_editable_field_func` (otherwise the
    setter raises AttributeError: the attribute is not settable on the original magpylib sources) *)
